@@ -338,7 +338,12 @@ def main():
                     samples.append({"list": repr(j.L), "alloc_kind": list(j.K), "script": lines[:12]})
                 # the property oracle runs on the implementation's own observations
                 ov = oracles.check(prop, j.L, j.K, lines, ib.get(sid, ["<missing>"]), expect)
-                d = first_diff(il, ml)
+                # scripts that deliberately enter a region where model and implementation are known
+                # to differ (recorded finding of ANOTHER property) are judged by the oracle alone
+                oracle_only = isinstance(expect, dict) and expect.get("oracle_only")
+                d = None if oracle_only else first_diff(il, ml)
+                if oracle_only:
+                    stats["oracle_only_scripts"] = stats.get("oracle_only_scripts", 0) + 1
                 if d is not None:
                     stats["disagreements"] += 1
                 if (ov or d is not None) and getattr(j, "lists", None):
